@@ -305,6 +305,16 @@ async fn scenario(args: &Args, sc: &Scenario, rep: &mut Report, idx: u64) {
     } else if !open_errors.is_empty() {
         rep.inconclusive(format!("{ctx}: opener errors {:?}", open_errors.first()));
     }
+    // a stream the receiving endpoint refused (STOP_SENDING / refused opening) on a live
+    // connection was never going to be delivered: that is a lost stream, seen from the sender
+    let refused: Vec<&String> = open_errors.iter().filter(|e| e.contains("stopped") || e.contains("refused")).collect();
+    if !refused.is_empty() {
+        rep.violation(
+            format!("C08|refused-by-receiver|cancel={}", sc.cancel),
+            format!("{} of {} streams were refused by the receiving endpoint although its application keeps accepting: {}", refused.len(), sc.n, refused[0]),
+            J::obj([("context", J::s(ctx.clone())), ("refused", J::u(refused.len() as u64))]),
+        );
+    }
     rep.eval(ctx.clone());
     rep.evals(sent.len() as u64);
     rep.sample(J::obj([
